@@ -4,22 +4,31 @@ package main
 // sequences (drop, graceful close, refused connections, failing negotiations, Stop).
 
 import (
+	"context"
+	"crypto/tls"
 	"encoding/json"
+	"encoding/xml"
 	"fmt"
 	"math/rand"
+	"net"
+	"net/http"
 	"strings"
 	"sync"
 	"time"
 
 	xmpp "gosrc.io/xmpp"
 	"gosrc.io/xmpp/stanza"
+	"nhooyr.io/websocket"
 )
 
 type c13Round struct {
-	Term     string   `json:"term"`                // drop close
-	RefuseMs int      `json:"refuse_ms,omitempty"` // nothing listens for this long after the loss
-	Fails    []string `json:"fails,omitempty"`     // negotiation failures before the good attempt: transient permanent
-	Resume   bool     `json:"resume,omitempty"`    // the good attempt resumes the stream-managed session
+	Term     string `json:"term"`                // drop close serr (<stream:error><system-shutdown/></stream:error></stream:stream>)
+	RefuseMs int    `json:"refuse_ms,omitempty"` // nothing listens for this long after the loss
+	// negotiation failures before the good attempt: transient (unexpected reply to <auth/>, stream closed cleanly),
+	// transientdrop (the same, connection cut), cutfeatures (connection cut after the server's stream header, before
+	// the features), cutproceed (TLS only: cut after the client's <starttls/>, before <proceed/>), permanent (SASL failure)
+	Fails  []string `json:"fails,omitempty"`
+	Resume bool     `json:"resume,omitempty"` // the good attempt resumes the stream-managed session
 }
 type c13In struct {
 	SM     bool       `json:"sm,omitempty"`
@@ -27,7 +36,11 @@ type c13In struct {
 	StopIn int        `json:"stop_in,omitempty"` // k > 0: Stop is called from inside the k-th PostConnect callback (the one-shot connect / send / stop pattern)
 	Rounds []c13Round `json:"rounds"`
 	KaMs   int        `json:"ka_ms,omitempty"` // keepalive interval in ms (0: the default, 30 s): a short one makes the keepalive of a lost connection tick during the outage
+	TLS    bool       `json:"tls,omitempty"`   // TLS is mandatory (Insecure=false): every connection goes through STARTTLS
+	WS     bool       `json:"ws,omitempty"`    // WebSocket transport (ws://) against an RFC 7395 server: terms drop / serr, refusal windows, transient / permanent failures
 }
+
+func c13Cut(f string) bool { return f == "transientdrop" || f == "cutfeatures" || f == "cutproceed" }
 
 type c13 struct{}
 
@@ -38,7 +51,7 @@ func (c13) RunFn() string { return "run_C13" }
 func (c13) Workers() int  { return 32 }
 func (c13) Journal() bool { return true }
 func (c13) Rule() string {
-	return "fault sequences of up to 4 rounds on successive connections of a real StreamManager+Client: abrupt drop or graceful </stream:stream> by the server, listener down for 0-120 ms (refused attempts), keepalive interval the default or 3-10 ms (shorter than the outage), 0-2 negotiation failures (transient: unexpected reply to <auth/>, with a clean stream close or with the connection cut; permanent: SASL <failure/>), then a successful attempt that resumes (stream management) or binds afresh; a probe stanza is sent on every established session; finally Stop; also first-connection failures; distinct = fault sequence; non-trivial = at least one loss followed by a new session"
+	return "fault sequences of up to 4 rounds on successive connections of a real StreamManager+Client: abrupt drop, graceful </stream:stream> or <stream:error><system-shutdown/></stream:error></stream:stream> by the server, listener down for 0-120 ms (refused attempts), keepalive interval the default or 3-10 ms (shorter than the outage), 0-2 negotiation failures (transient: unexpected reply to <auth/>, with a clean stream close or with the connection cut, or the connection cut after the server's stream header / after the client's <starttls/>; permanent: SASL <failure/>), then a successful attempt that resumes (stream management) or binds afresh; a probe stanza is sent on every established session; finally Stop; also first-connection failures; cleartext or mandatory STARTTLS; TCP or WebSocket transport; distinct = fault sequence; non-trivial = at least one loss followed by a new session"
 }
 func (c13) Decode(raw json.RawMessage) (interface{}, error) {
 	var in c13In
@@ -68,15 +81,40 @@ func (c13) Gen(r *rand.Rand, tier string) []interface{} {
 		c13In{KaMs: 5, Rounds: []c13Round{{Term: "drop", RefuseMs: 100}}},
 		c13In{KaMs: 5, Rounds: []c13Round{{Term: "close", RefuseMs: 60}, {Term: "drop", Fails: []string{"transient"}}}},
 		c13In{KaMs: 4, SM: true, Rounds: []c13Round{{Term: "drop", RefuseMs: 80, Resume: true}}},
+		// the server ends the session with a stream error (a restart): the manager reconnects from inside the handler
+		c13In{Rounds: []c13Round{{Term: "serr"}}},
+		c13In{SM: true, Rounds: []c13Round{{Term: "serr", Resume: true}, {Term: "drop"}}},
+		c13In{KaMs: 5, Rounds: []c13Round{{Term: "serr", RefuseMs: 80}}},
+		// a reconnection attempt reaches a server that is still going down: the connection is cut in mid-negotiation
+		c13In{Rounds: []c13Round{{Term: "drop", Fails: []string{"cutfeatures"}}}},
+		c13In{TLS: true, Rounds: []c13Round{{Term: "drop", Fails: []string{"cutproceed"}}}},
+		c13In{TLS: true, SM: true, Rounds: []c13Round{{Term: "close", Resume: true}, {Term: "serr", Fails: []string{"transient"}}}},
+		// WebSocket transport
+		c13In{WS: true, KaMs: 20, Rounds: []c13Round{{Term: "drop"}}},
+		c13In{WS: true, KaMs: 20, Rounds: []c13Round{{Term: "drop", RefuseMs: 80}}},
+		c13In{WS: true, Rounds: []c13Round{{Term: "serr", Fails: []string{"transient"}}}},
 	)
 	for i := 0; i < n; i++ {
 		in := c13In{SM: r.Intn(2) == 0}
 		if r.Intn(3) == 0 {
 			in.KaMs = 3 + r.Intn(8)
 		}
+		switch r.Intn(8) {
+		case 0:
+			in.TLS = true
+		case 1:
+			in.WS, in.SM = true, false
+			in.KaMs = 15 + r.Intn(15) // a WebSocket client notices a dead peer through its keepalive only
+		}
 		k := 1 + r.Intn(4)
+		if in.WS {
+			k = 1 + r.Intn(2)
+		}
 		for j := 0; j < k; j++ {
-			rd := c13Round{Term: []string{"drop", "close"}[r.Intn(2)]}
+			rd := c13Round{Term: []string{"drop", "close", "drop", "close", "serr"}[r.Intn(5)]}
+			if in.WS && rd.Term == "close" {
+				rd.Term = "drop"
+			}
 			if r.Intn(3) == 0 {
 				rd.RefuseMs = 20 + r.Intn(100)
 			}
@@ -85,9 +123,16 @@ func (c13) Gen(r *rand.Rand, tier string) []interface{} {
 					rd.Fails = append(rd.Fails, "permanent")
 					break
 				}
-				if r.Intn(4) == 0 {
+				switch x := r.Intn(8); {
+				case in.WS:
+					rd.Fails = append(rd.Fails, "transient")
+				case x == 0:
 					rd.Fails = append(rd.Fails, "transientdrop")
-				} else {
+				case x == 1:
+					rd.Fails = append(rd.Fails, "cutfeatures")
+				case x == 2 && in.TLS:
+					rd.Fails = append(rd.Fails, "cutproceed")
+				default:
 					rd.Fails = append(rd.Fails, "transient")
 				}
 			}
@@ -125,9 +170,12 @@ func (c13) Input(inp interface{}) Sx {
 				break
 			}
 			sessions++
-			if rd.Term == "drop" {
+			switch rd.Term {
+			case "drop":
 				term(0)
-			} else {
+			case "serr":
+				term(3)
+			default:
 				term(1)
 			}
 			if rd.RefuseMs > 0 {
